@@ -473,7 +473,12 @@ def generate_input(
         json_dict = {"comments": "",
                      "ranges": ranges_dict}
 
-        filename = os.path.join(input_dir, f'{label}.json')
+        # One file per bias ratio: with a single file name every bias ratio
+        # after the first overwrote the previous specification.
+        if len(bias_ratios) > 1:
+            filename = os.path.join(input_dir, f'{label}_bias_{eta}.json')
+        else:
+            filename = os.path.join(input_dir, f'{label}.json')
 
         with open(filename, 'w') as json_file:
             json.dump(json_dict, json_file, indent=4)
